@@ -3,4 +3,4 @@
 set -e
 cd "$(dirname "$0")/harness"
 export CARGO_NET_OFFLINE=true
-cargo build -p vchecks
+cargo build -p vchecks -p vgen
